@@ -907,11 +907,12 @@ def gen_seg():
                 reg[spec["name"]] = info
                 sec += [text, ""]
         except GenError as e:
+            # a section that is no longer understood is left out (its equality proofs stop compiling); the other sections, which
+            # belong to other properties, are still written
             errors.append(str(e))
+            parts += ["(* NOT TRANSLATED: section %s -- %s *)" % (title, str(e).replace("*)", "* )")), ""]
             continue
         parts += sec
-    if errors:
-        raise GenError(" | ".join(errors))
     return "\n".join(parts)
 
 
